@@ -29,13 +29,19 @@ Definition input_eqb (a b : input) : bool :=
   | _, _ => false
   end.
 
+(* (S4) over sources: no default, and every item is a fully explicit valid spec of its own (class paths dotted, dict
+   form throughout, no dict_kwargs) - a sequence of valid explicit specs, also one that changes the class between
+   sources, must not be rejected *)
+Definition all_explicit (F : family) (base : str) (dflt : option value) (steps : list input) : bool :=
+  match dflt, steps with
+  | None, _ :: _ => forallb (fun i => match i with IRaw r => explicit_valid 60 F base r | _ => false end) steps
+  | _, _ => false
+  end.
+
 (* (S1), (S2), (S4) on one observation *)
 Definition obs_ok (F : family) (base : str) (dflt : option value) (steps : list input) (o : obs) : bool :=
   match o with
-  | ORej => match dflt, steps with
-            | None, [IRaw r] => negb (explicit_valid 60 F base r)
-            | _, _ => true
-            end
+  | ORej => negb (all_explicit F base dflt steps)
   | OAcc v io =>
       valid F base v &&
       match io with
@@ -98,6 +104,9 @@ Definition spec_ok (c : case) : bool :=
                                      | OAcc v _ => negb (instantiable (k_fam c) v && dk_accepted (k_fam c) v)
                                      | _ => false
                                      end) (parts_of c))
+            (* (S4) when every option is given by fully explicit valid specs only, the parse is not rejected *)
+            && (negb (forallb (fun p => all_explicit (k_fam c) (s_base p) (s_dflt p) (s_steps p)) (parts_of c))
+                || negb (existsb (fun p => is_rej (s_obs p)) (parts_of c)))
      end
   && twin_ok c.
 
